@@ -3086,6 +3086,24 @@ def item_hierarchy_model(ctx, rng, t):
             mP = np.array([float(x) for x in dec_list(parts[2], dec_rat)]).reshape(Pd.shape)
             mA = np.array([float(x) for x in dec_list(parts[3], dec_rat)]).reshape(An.shape)
             if not close(mP, Pd, 1e-6) or not close(mA, An, 1e-6):
+                # stability probe: is the real level itself determined to 1e-6?  (candidates in the near null space of A, e.g.
+                # [1, x] on 1-D Poisson, make the coarse energy minimisation ill-conditioned: binary64 and the exact model then
+                # differ by more than the tolerance although both are right)  Rebuild with the candidates perturbed by 1e-11.
+                try:
+                    np.random.seed(seed)
+                    Bp = B * (1.0 + 1e-11 * np.random.default_rng(7).standard_normal(B.shape))
+                    np.random.seed(seed)
+                    with quiet():
+                        mlp = fn(A, B=Bp, symmetry='hermitian', strength=strength, aggregate=aggregate, smooth=sm, improve_candidates=None,
+                                 max_coarse=1, max_levels=3, keep=True)
+                    Pp = mlp.levels[li].P.toarray() if li < len(mlp.levels) - 1 else None
+                    unstable = Pp is None or Pp.shape != Pd.shape or not close(Pp, Pd, 1e-7)
+                except Exception:       # noqa: BLE001
+                    unstable = True
+                if unstable:
+                    ctx.near_skipped += 1
+                    ctx.feat('hier-model:ill-conditioned-level-skipped')
+                    return
                 corr(f'hierarchy model: P / Galerkin product, {what}', case, parts[2][:200], Pd.ravel()[:12].tolist())
                 return
             ctx.feat(f'hier-model:level{li}:P')
